@@ -2,11 +2,13 @@ package checks
 
 import (
 	"bytes"
+	"context"
 	"fmt"
 	"sort"
 	"strings"
 
 	"git.defalsify.org/vise.git/db"
+	memdb "git.defalsify.org/vise.git/db/mem"
 
 	"visim/app"
 	"visim/core"
@@ -30,10 +32,10 @@ func init() {
 			"external functions are application state outside the crashed process: their call counters keep the value they had at the crash",
 			"crash points are placed at every file-system call the real db/fs code makes; kinds it does not make on the current tree (truncate, remove, sync since writes go through temp file + rename) are listed with 0 and fire as soon as the code starts making such calls",
 		},
-		Real:       append(append([]string{}, realAll...), "db/fs (compiled against the simulated os)"),
-		Stub:       append(append([]string{}, stubAll...), "OS filesystem (simfs)"),
+		Real:        append(append([]string{}, realAll...), "db/fs (compiled against the simulated os)"),
+		Stub:        append(append([]string{}, stubAll...), "OS filesystem (simfs)"),
 		HangSeconds: 120, // single runs of this check take seconds, more on a loaded machine
-		FaultKinds: []string{"fs_crash_point:create", "fs_crash_point:truncate", "fs_crash_point:write", "fs_crash_point:close", "fs_crash_point:rename", "fs_crash_point:remove", "fs_crash_point:sync", "restart"},
+		FaultKinds:  []string{"fs_crash_point:create", "fs_crash_point:truncate", "fs_crash_point:write", "fs_crash_point:close", "fs_crash_point:rename", "fs_crash_point:remove", "fs_crash_point:sync", "restart"},
 		Post: func(cov map[string]interface{}) {
 			cov["exhaustive_note"] = "per save: all micro-steps and the stated byte offsets are enumerated; histories are sampled"
 		},
@@ -111,16 +113,31 @@ func runC12(c *core.Ctx) *core.Outcome {
 	cfg.FinishAlways = t.Chance(1, 3)
 	p := fullProfile(t, cfg.FlagCount)
 	p.BigValues = false
+	p.HugePages = t.Chance(1, 15) // symbols that fill a 65535-byte limit: session records of more than 64 KiB
 	a := app.Generate(t, p)
 	if err := a.Validate(); err != nil {
 		panic("generator produced ill-formed app: " + err.Error())
 	}
+	bigRun := t.Chance(1, 8)
+	if bigRun {
+		// session records of more than 64 KiB (two symbols of tens of kilobytes each)
+		a = bigRecordApp(t)
+		cfg.CacheSize = 0
+		cfg.OutputSize = 0
+		o.Probes["big_record_run"]++
+	}
 	nsess := t.Range(1, 3)
+	if bigRun {
+		nsess = 1
+	}
 	ids := []string{"s1", "s2", "sess3"}[:nsess]
 	disk := simfs.New()
 	defer disk.Unmount()
 	w, sess := c12World(a, cfg, disk, ids, nil)
 	nreq := t.Range(1, 8)
+	if bigRun {
+		nreq = t.Range(3, 6)
+	}
 	var trace []string
 	replaced := 0
 	var allDisks []*simfs.FS
@@ -150,6 +167,9 @@ func runC12(c *core.Ctx) *core.Outcome {
 				cur = pp[len(pp)-1]
 			}
 			in = genInput(t, a, cur, 1)
+			if bigRun && t.Chance(3, 4) {
+				in = []byte("1")
+			}
 		}
 		nextIn := []byte([]string{"1", "0", "x", "11"}[t.Int(4)])
 		t.End()
@@ -173,6 +193,12 @@ func runC12(c *core.Ctx) *core.Outcome {
 			break
 		}
 		files1 := stateFiles(disk)
+		for _, b := range files1 {
+			if len(b) > 65536 {
+				o.Probes["saved_record_over_64KiB"]++
+				break
+			}
+		}
 		// save windows and the stable records of this session at their boundaries
 		var wins []saveWindow
 		var cur *saveWindow
@@ -221,10 +247,7 @@ func runC12(c *core.Ctx) *core.Outcome {
 			stepIdx++
 			pts = append(pts, point{stepIdx, 0})
 			if e.Kind == "write" && e.Len > 1 {
-				for off := 1; off < e.Len; off++ {
-					if e.Len > 384 && off > 128 && off < e.Len-128 && off%5 != 0 {
-						continue
-					}
+				for _, off := range crashOffsets(e.Len) {
 					pts = append(pts, point{stepIdx, off})
 				}
 			}
@@ -277,6 +300,31 @@ func runC12(c *core.Ctx) *core.Outcome {
 			r := &contRes{st: cs[sid].Request(nextIn, true), files: stateFiles(dn)}
 			contCache[key] = r
 			return r
+		}
+		if recName != "" && st.Panic == "" {
+			// the complete record itself: a fresh engine over this disk continues the session exactly as a
+			// fresh engine that is handed the same record bytes by the memory backend. (The crash points below
+			// compare fs with fs; a record that the file-system backend cannot read back whole - and that the
+			// engine therefore answers by silently starting over - is the same on both sides there.)
+			fsR := cont(files1, copyCalls(s.Calls), "uncrashed")
+			wm := world.New(a, cfg)
+			mstore := memdb.NewMemDb()
+			mstore.Connect(context.Background(), "")
+			mstore.SetPrefix(db.DATATYPE_STATE)
+			if cfg.SetSession {
+				mstore.SetSession(sid)
+			}
+			if err := mstore.Put(context.Background(), []byte(sid), files1[recName]); err == nil {
+				wm.NewStore = func(*world.Sess) (db.Db, error) { return mstore, nil }
+				sm := wm.NewSession(sid, true)
+				sm.Calls = copyCalls(s.Calls)
+				memR := sm.Request(nextIn, true)
+				o.Probes["record_continued_from_memory_twin"]++
+				if stepSig(memR) != stepSig(fsR.st) {
+					return fail("record-not-continued", i, "request %d (%s <- %q) saved a complete record %s of %d bytes; a fresh engine over the disk answers %q with (cont=%v err=%q out=%s), a fresh engine handed the same bytes by the memory backend with (cont=%v err=%q out=%s)",
+						i, sid, in, recName, len(files1[recName]), nextIn, fsR.st.Cont, fsR.st.ExecErr, short(fsR.st.Out), memR.Cont, memR.ExecErr, short(memR.Out))
+				}
+			}
 		}
 		for _, pt := range pts {
 			dc := newDisk(d0)
@@ -487,4 +535,44 @@ func recordKey(b []byte) string {
 		return fmt.Sprintf("<undecodable %d bytes>", len(b))
 	}
 	return snapKey(st, ca)
+}
+
+// crashOffsets lists the byte offsets inside a write of n bytes at which the process is made to die:
+// every offset of a short write; the first and last 128 and every fifth in between of a longer one; for
+// a write of more than 4 KiB the first and last 64, the offsets around every 4 KiB boundary and around
+// 64 KiB, and the middle.
+func crashOffsets(n int) []int {
+	var r []int
+	if n <= 4096 {
+		for off := 1; off < n; off++ {
+			if n > 384 && off > 128 && off < n-128 && off%5 != 0 {
+				continue
+			}
+			r = append(r, off)
+		}
+		return r
+	}
+	set := map[int]bool{}
+	add := func(off int) {
+		if off >= 1 && off < n {
+			set[off] = true
+		}
+	}
+	for k := 1; k <= 64; k++ {
+		add(k)
+		add(n - k)
+	}
+	for b := 4096; b < n; b += 4096 {
+		add(b - 1)
+		add(b)
+		add(b + 1)
+	}
+	for _, b := range []int{65535, 65536, 65537, n / 2} {
+		add(b)
+	}
+	for off := range set {
+		r = append(r, off)
+	}
+	sort.Ints(r)
+	return r
 }
